@@ -55,7 +55,7 @@ Theorem self_import_is_rejected a module_path s1 s2 x later module_path2 s3 :
   import_tail fs cwd main_path (a ++ c_slash :: x) module_path2 s3 = cyclic_err.
 Proof.
   intros H1 Hm Hl He Hk.
-  destruct (import_splices_in_place fs cwd main_path a module_path s1 s2 H1) as (semi & after & src & toks & toks' & _ & _ & _ & _ & _ & Hmods).
+  destruct (import_splices_in_place fs cwd main_path a module_path s1 s2 H1) as (semi & after & src & toks & toks' & _ & _ & _ & _ & _ & _ & Hmods).
   apply import_of_an_enclosing_module_is_rejected; [exact He|].
   rewrite Hm, Hmods, Hk. rewrite assoc_text_app_none by exact Hl. cbn [assoc_text]. rewrite text_eqb_refl. reflexivity.
 Qed.
